@@ -90,6 +90,11 @@ impl<'a> Z80Bus for LogBus<'a> {
     }
     fn wait_no_mreq(&mut self, addr: u16, clk: usize) {
         self.flush_pending();
+        if clk != 1 {
+            // the documented sequence is a run of single internal T-states, each of which the
+            // machine (ULA) may stretch; one n-T cycle is a different presentation
+            self.anomalies.push(format!("internal delay presented as one {}-T cycle at {:04x} instead of single T-states", clk, addr));
+        }
         for _ in 0..clk {
             self.cy.push(Cy::Dl(addr));
         }
